@@ -96,6 +96,14 @@ type world struct {
 	// bookkeeping for specifications computed on the Go side
 	defOrigin []int // Define statement index each factory descends from
 	norg      int
+	// caller-owned slices handed to the library by the last statement (C04): allocated
+	// with spare capacity, plus copies taken before the call
+	lastOpts   []errdef.Option
+	lastArgs   []any
+	lastCauses []error
+	optsCopy   []errdef.Option
+	argsCopy   []any
+	causesCopy []error
 }
 
 func newWorld() *world { return &world{pool: valuePool()} }
@@ -131,14 +139,27 @@ func (w *world) opt(o POpt) (errdef.Option, string) {
 }
 
 func (w *world) opts(os []POpt) ([]errdef.Option, string) {
-	var out []errdef.Option
+	out := make([]errdef.Option, 0, len(os)+2) // spare capacity: an append by the library would write here
 	var cs []string
 	for _, o := range os {
 		g, c := w.opt(o)
 		out = append(out, g)
 		cs = append(cs, c)
 	}
+	if len(out) == 0 {
+		out = nil
+	}
+	w.lastOpts = out
+	w.optsCopy = append([]errdef.Option(nil), fullCap(out)...)
 	return out, cList(cs)
+}
+
+// fullCap views a slice up to its capacity.
+func fullCap[T any](s []T) []T {
+	if s == nil {
+		return nil
+	}
+	return s[:cap(s)]
 }
 
 func coqKey(k keyEntry) string {
@@ -347,7 +368,7 @@ func (w *world) exec(s PStmt) (panicked any) {
 		e := w.defs[s.F].Errorf(s.Format, args...)
 		w.errs = append(w.errs, e)
 		w.coq = append(w.coq, fmt.Sprintf("(SErrorf %s %s %s %s %s)", cNat(s.F), cStr(s.Format), cNat(len(args)),
-			cStr(fmt.Sprintf(s.Format, w.args(s.Args)...)), coqFrames(e)))
+			cStr(fmt.Sprintf(s.Format, w.refArgs(s.Args)...)), coqFrames(e)))
 	case "wrap":
 		e := w.defs[s.F].Wrap(w.errAt(s.C))
 		w.errs = append(w.errs, e)
@@ -357,12 +378,9 @@ func (w *world) exec(s PStmt) (panicked any) {
 		e := w.defs[s.F].Wrapf(w.errAt(s.C), s.Format, args...)
 		w.errs = append(w.errs, e)
 		w.coq = append(w.coq, fmt.Sprintf("(SWrapf %s %s %s %s)", cNat(s.F), optIdx(s.C),
-			cStr(fmt.Sprintf(s.Format, w.args(s.Args)...)), coqFrames(e)))
+			cStr(fmt.Sprintf(s.Format, w.refArgs(s.Args)...)), coqFrames(e)))
 	case "join":
-		var cs []error
-		for _, p := range s.Cs {
-			cs = append(cs, w.errAt(p))
-		}
+		cs := w.causeSlice(s.Cs)
 		e := w.defs[s.F].Join(cs...)
 		w.errs = append(w.errs, e)
 		w.coq = append(w.coq, fmt.Sprintf("(SJoin %s %s %s)", cNat(s.F), optIdxList(s.Cs), coqFrames(e)))
@@ -381,10 +399,7 @@ func (w *world) exec(s PStmt) (panicked any) {
 			w.coq = append(w.coq, fmt.Sprintf("(SFmtErrorf %s %s)", cStr(s.Msg), cNat(*s.C)))
 		}
 	case "errorsjoin":
-		var cs []error
-		for _, p := range s.Cs {
-			cs = append(cs, w.errAt(p))
-		}
+		cs := w.causeSlice(s.Cs)
 		w.errs = append(w.errs, errors.Join(cs...))
 		w.coq = append(w.coq, fmt.Sprintf("(SErrorsJoin %s)", optIdxList(s.Cs)))
 	case "single":
@@ -434,11 +449,36 @@ func (w *world) runCbTracked(c *PCb, inner map[*PCb]error) error {
 }
 
 func (w *world) args(ixs []int) []any {
+	if len(ixs) == 0 {
+		w.lastArgs, w.argsCopy = nil, nil
+		return nil
+	}
+	out := make([]any, 0, len(ixs)+3)
+	for _, i := range ixs {
+		out = append(out, w.pool[i].V)
+	}
+	w.lastArgs = out
+	w.argsCopy = append([]any(nil), fullCap(out)...)
+	return out
+}
+
+// refArgs: a private argument slice for the harness's own reference Sprintf.
+func (w *world) refArgs(ixs []int) []any {
 	var out []any
 	for _, i := range ixs {
 		out = append(out, w.pool[i].V)
 	}
 	return out
+}
+
+func (w *world) causeSlice(ps []*int) []error {
+	cs := make([]error, 0, len(ps)+2)
+	for _, p := range ps {
+		cs = append(cs, w.errAt(p))
+	}
+	w.lastCauses = cs
+	w.causesCopy = append([]error(nil), fullCap(cs)...)
+	return cs
 }
 
 func (w *world) run(p []PStmt) (panics []string) {
